@@ -126,6 +126,7 @@ class Canon:
         self.fold_global = fold_global
         # when the rule declares the operands non-negative, truncating and flooring division coincide
         self.unify_divmod = unify_divmod
+        self.str_map = {}
 
     def leaf(self, name):
         if name in self.env:
@@ -139,6 +140,11 @@ class Canon:
 
     def path(self, e):
         if e.k == 'var':
+            v = self.env.get(e.a[0])
+            if isinstance(v, Poly) and len(v.t) == 1:
+                (k, c), = v.t.items()
+                if c == 1 and len(k) == 1 and k[0][0] == 'sym':
+                    return k[0][1]
             return e.a[0]
         if e.k == 'this':
             return 'this'
@@ -163,6 +169,8 @@ class Canon:
         if k == 'null':
             return Poly.atom(('sym', 'null'))
         if k == 'str':
+            if a[0] in self.str_map:
+                return Poly.const(self.str_map[a[0]])
             return Poly.atom(('str', a[0]))
         if k in ('var', 'field', 'this', 'index', 'deref', 'addr'):
             p = self.path(e)
@@ -505,6 +513,8 @@ class SymExec:
         self.lang = lang
         self.inline_bound = inline_bound
         self.out_params = set()
+        self.str_map = {}
+        self.cmp_calls = {}     # resolved callee name -> comparison operator on its two arguments
 
     def canon(self, env):
         return _InliningCanon(self, env)
@@ -529,6 +539,10 @@ class SymExec:
                 return cmp_formula(op, c(a[1]), c(a[2]))
         if k == 'const':
             return ('true',) if a[0] else ('false',)
+        if k == 'call' and a[0] in self.cmp_calls and len(a[2]) + (1 if a[1] is not None else 0) == 2:
+            c = self.canon(env)
+            args = ([a[1]] if a[1] is not None else []) + list(a[2])
+            return cmp_formula(self.cmp_calls[a[0]], c(args[0]), c(args[1]))
         p = self.canon(env)(e)
         if p.is_const():
             return ('true',) if p.const_value() else ('false',)
@@ -687,6 +701,7 @@ class _InliningCanon(Canon):
     def __init__(self, sx, env):
         Canon.__init__(self, env=env, sym=sx.sym, fn=sx.fn, lang=sx.lang, fold_global=sx.fold_global,
                        unify_divmod=sx.unify_divmod)
+        self.str_map = sx.str_map
         self.sx = sx
 
     def __call__(self, e):
